@@ -1,5 +1,6 @@
 import Pyunicorn.Model.Proto
 import Pyunicorn.Model.Access
+import Pyunicorn.Model.AccessMi
 import Pyunicorn.Model.WhileKernels
 import Pyunicorn.Model.LineIdx
 import Pyunicorn.Model.NsiIdx
@@ -10,7 +11,8 @@ routines and outcomes of the `while` kernels. -/
 open Pyunicorn Pyunicorn.Proto Pyunicorn.Access
 namespace G
 export Pyunicorn.Generated.StructC20Py (pearson_pysizes pearson_pychecks tmi_pysizes tmi_pychecks
-  tmi_range_min tmi_range_max tmi_scaling)
+  tmi_range_min tmi_range_max tmi_scaling mi_steps normalize_steps mi_range_min mi_range_max
+  mi_scaling mi_call_args)
 end G
 
 def orat (s : String) : Option Rat := if s == "nan" then none else rat? s
@@ -74,6 +76,13 @@ def predictKernel (key : String) (B : Int) (kv : List (String × Int)) : String 
     let bad (s : PSite) : Bool := s.g && !(decide (0 ≤ s.idx) && decide (s.idx < s.dim))
     if es.any (fun e => (sites (envOf e)).any fun s => bad s && !s.cond) then "raise"
     else if es.any (fun e => (sites (envOf e)).any bad) then "either" else "ok"
+
+/-- the square root (of the mean of squares) of the normalisation: exact, or what floating point
+gives when every square underflows (`zero`) / overflows (`inf`) -/
+def sqMode (m : String) : XR → XR :=
+  if m == "zero" then fun x => if x.isNan then .nan else .fin 0
+  else if m == "inf" then fun x => if x.isNan then .nan else .pinf
+  else sqrtX
 
 instance : BEq Verdict := ⟨fun a b => decide (a = b)⟩
 
@@ -146,6 +155,31 @@ def answer (toks : List String) : String :=
             (match XR.recip (XR.sub mx mn) with
              | none => "zerodiv"
              | some s => showX s)
+  | ["call", "mix", t, n, nb, big, sqm, d] =>
+      -- round 5c: the climate worker on the caller's (time, nodes) anomaly of IEEE values; statements,
+      -- range terms, scaling expression and call arguments are the *generated* ones; `big`: the
+      -- largest finite `float` (overflow of the conversion)
+      (miCallX G.mi_steps G.normalize_steps G.mi_range_min G.mi_range_max G.mi_scaling G.mi_call_args
+        (sqMode sqm) (rndBig ((rat? big).getD 0)) t.toNat! n.toNat! nb.toInt! (xdata d)).str
+  | ["range", "mix", t, n, sqm, d] =>
+      -- the normalised, transposed array with its range and scaling, and whether every square root
+      -- taken was exact
+      let T := t.toNat!
+      let N := n.toNat!
+      let a := xdata d
+      match miRangeX G.mi_steps G.normalize_steps (sqMode sqm) T N a,
+            miRangeX G.mi_steps (G.normalize_steps.take 1) sqrtX T N a with
+      | some (dd, mn, mx, s), some (cc, _, _, _) =>
+          let ex := sqm != "exact" || (List.range N).all fun j =>
+            sqrtExact (meanX ((cc.getD j []).map fun x => XR.mul x x))
+          (if ex then "exact " else "approx ") ++
+          (if dd.flatten.isEmpty then "-" else
+            String.intercalate ";" (dd.map fun row => String.intercalate "," (row.map showX))) ++ " " ++
+          showX mn ++ " " ++ showX mx ++ " " ++
+            (match s with
+             | none => "zerodiv"
+             | some s => showX s)
+      | _, _ => "unreadable"
   | ["call", "mi", n, t, nb, zdiv, sc, rm, d] =>
       (miCall n.toNat! t.toNat! nb.toInt! (zdiv == "1") (orat sc) (orat rm) (odata d)).str
   | ["call", "miobj", objn, n, t, nb, zdiv, sc, rm, d] =>
